@@ -536,6 +536,12 @@ class Stage:
                 self._method.set_value(self, self.master._method, parameter, value)
                 # Remember the value: it must survive a later re-transcription or save()
                 self._param_vals[parameter] = value
+                # Sub-stages may use this parameter in their horizon or in their guesses
+                for s in self.iter_stages():
+                    if hasattr(s._method, "set_initial_with_grid"):
+                        exprs = [s._T, s._t0] + list(s._initial.values())
+                        if any(isinstance(e, MX) and depends_on(e, parameter) for e in exprs):
+                            s._method.set_initial_with_grid(s._augmented, self.master._method, s._initial)
         else:
             def action(parameter, value):
                 if parameter not in self._meta:
